@@ -88,7 +88,16 @@ class VThread(object):
 
 
 class Sched(object):
-    def __init__(self, prefix=(), trace_files=(), trace_funcs=None, horizon=20000):
+    def __init__(self, prefix=(), trace_files=(), trace_funcs=None, horizon=20000,
+                 op_points_only=False):
+        # op_points_only: the only choice points are explicit point() calls of
+        # the harness.  Thread start/join are not scheduling points and a forced
+        # switch (running thread blocked or finished) deterministically picks
+        # the lowest enabled thread id without branching.  Sound when code
+        # between point() calls has no shared effects: the picked thread only
+        # advances to its own next point(), where every enabled thread is again
+        # a candidate, so every interleaving of the operations stays reachable.
+        self.op_points_only = op_points_only
         self.prefix = list(prefix)
         self.trace_files = set(trace_files)
         self.trace_funcs = set(trace_funcs) if trace_funcs else None
@@ -144,6 +153,8 @@ class Sched(object):
         if len(en) == 1:
             # forced move: not a choice point
             return en[0]
+        if self.op_points_only and not running_enabled:
+            return min(en, key=lambda t: t.tid)
         if i < len(self.prefix):
             k = self.prefix[i]
             if k >= len(en):
@@ -361,14 +372,16 @@ class CoopThread(object):
         if s is None:
             raise RuntimeError("CoopThread outside scheduler")
         self._vt = s.spawn(lambda: self._target(*self._args, **self._kwargs), self.name)
-        s.point(("thread.start",))
+        if not s.op_points_only:
+            s.point(("thread.start",))
 
     def join(self, timeout=None):
         s = CURRENT
         vt = self._vt
         if vt is None:
             raise RuntimeError("cannot join thread before it is started")
-        s.point(("thread.join",))
+        if not s.op_points_only:
+            s.point(("thread.join",))
         s.block_until(lambda: vt.done, ("thread.join.wait",))
 
     def is_alive(self):
@@ -386,9 +399,9 @@ class Execution(object):
     __slots__ = ("sched", "obs", "choices", "preemptions")
 
 
-def run_once(setup, prefix, trace_files=(), trace_funcs=None, horizon=20000):
+def run_once(setup, prefix, trace_files=(), trace_funcs=None, horizon=20000, op_points_only=False):
     """setup(sched) -> (list of (name, fn), observe) ; observe(sched) -> JSON-able"""
-    s = Sched(prefix, trace_files, trace_funcs, horizon)
+    s = Sched(prefix, trace_files, trace_funcs, horizon, op_points_only)
     global CURRENT
     CURRENT = s  # primitives created during setup see the scheduler
     try:
@@ -409,7 +422,7 @@ def run_once(setup, prefix, trace_files=(), trace_funcs=None, horizon=20000):
 
 
 def explore(setup, bound, trace_files=(), trace_funcs=None, horizon=20000, max_execs=None,
-            shard=(0, 1)):
+            shard=(0, 1), op_points_only=False):
     """Yields every Execution with <= bound preemptions.  Raises
     ReplayDivergence if a prefix does not replay.
 
@@ -425,7 +438,7 @@ def explore(setup, bound, trace_files=(), trace_funcs=None, horizon=20000, max_e
     def verify(x):
         """Replay one recorded schedule and require identical observations."""
         full = [c[1] for c in x.choices]
-        y = run_once(setup, full, trace_files, trace_funcs, horizon)
+        y = run_once(setup, full, trace_files, trace_funcs, horizon, op_points_only)
         if [c[1] for c in y.choices] != full or repr(y.obs) != repr(x.obs):
             raise ReplayDivergence(
                 "schedule %r replayed with different observations" % (full,)
@@ -437,7 +450,7 @@ def explore(setup, bound, trace_files=(), trace_funcs=None, horizon=20000, max_e
     n = 0
     while stack:
         prefix = list(stack.pop())
-        x = run_once(setup, prefix, trace_files, trace_funcs, horizon)
+        x = run_once(setup, prefix, trace_files, trace_funcs, horizon, op_points_only)
         # the replayed part must be identical to the recorded prefix
         got = [c[1] for c in x.choices[: len(prefix)]]
         if got != prefix[: len(got)] or len(x.choices) < len(prefix):
